@@ -117,10 +117,10 @@ theorem lookup_erase (d : PDict) (k k' : String) :
 theorem lookup_zip (xs : List String) (ys : List Val) (n : String) :
     (xs.zip ys).lookup n = if n ∈ xs then ys[xs.idxOf n]? else none := by
   induction xs generalizing ys with
-  | nil => simp [List.lookup]
+  | nil => simp
   | cons x xs ih =>
     cases ys with
-    | nil => simp [List.lookup]
+    | nil => simp
     | cons y ys =>
       simp only [List.zip_cons_cons, List.lookup_cons, List.idxOf_cons]
       by_cases h : n = x
@@ -133,7 +133,7 @@ theorem lookup_zip (xs : List String) (ys : List Val) (n : String) :
 theorem lookup_map_self (xs : List String) (g : String → Val) (n : String) :
     (xs.map fun x => (x, g x)).lookup n = if n ∈ xs then some (g n) else none := by
   induction xs with
-  | nil => simp [List.lookup]
+  | nil => simp
   | cons x xs ih =>
     simp only [List.map_cons, List.lookup_cons]
     by_cases h : n = x
@@ -308,7 +308,7 @@ theorem param_lookup (s : Sig) (hs : s.WF) (c : Call)
       simpa [← e] using h2
     have hsome : ∃ a, c.args[s.params.idxOf k]? = some a := ⟨c.args[s.params.idxOf k], by simp [hi]⟩
     obtain ⟨a, ha⟩ := hsome
-    simp [hi, hnone, ha]
+    simp [hi, hnone]
   · have hn : c.args[s.params.idxOf k]? = none := by simp; omega
     simp only [hi, ↓reduceIte, hn, Option.none_or]
     cases c.kw.lookup k <;> simp
@@ -457,7 +457,7 @@ theorem getcallargs_agrees_aux (s : Sig) (hs : s.WF) (c : Call) (hkw : (c.kw.map
           have : (k == n) = false := by simpa using fun e => hnm e.symm
           simp [starEntries, hvar, hkwv, extraKw, List.lookup, this]
         · by_cases hkn : k = n
-          · subst hkn; simp [starEntries, hvar, hkwv, hkm, List.lookup]
+          · subst hkn; simp [starEntries, hvar, hkwv, hkm]
           · have h1 : (k == n) = false := by simpa using hkn
             have h2 : (k == m) = false := by simpa using hkm
             simp [starEntries, hvar, hkwv, hkm, hkn, List.lookup, h1, h2]
